@@ -502,6 +502,22 @@ func (sc *SpecCtx) call(e *SExpr) (*Val, error) {
 		default:
 			return &Val{T: g.ghostTerm(sc.cur, "$count:"+sel), Ty: intType}, nil
 		}
+	case "since":
+		if sc.callee || len(e.Args) != 2 {
+			return nil, fmt.Errorf("since(A, B): calls of A since the last call of B")
+		}
+		return &Val{T: g.ghostTerm(sc.cur, "$since:"+selName(e.Args[0])+"|"+selName(e.Args[1])), Ty: intType}, nil
+	case "stored":
+		if sc.callee || len(e.Args) != 1 {
+			return nil, fmt.Errorf("stored(field) is only meaningful inside the function itself")
+		}
+		g.ghostSorts["$stored:"+selName(e.Args[0])] = "Bool"
+		return &Val{T: g.ghostTerm(sc.cur, "$stored:"+selName(e.Args[0])), Ty: boolType}, nil
+	case "sent":
+		if sc.callee || len(e.Args) != 1 {
+			return nil, fmt.Errorf("sent(field) is only meaningful inside the function itself")
+		}
+		return &Val{T: g.ghostTerm(sc.cur, "$sent:"+selName(e.Args[0])), Ty: intType}, nil
 	case "result_of":
 		if sc.callee {
 			return nil, fmt.Errorf("call history of the callee is not visible at a call site")
